@@ -73,8 +73,12 @@ def cases(ctx):
                     okshape = (len(sig) == 64 if ht == 0 else (len(sig) == 65 and sig[-1] == ht))
                     if not okshape: return ('s:echo bad-length-or-hashtype-byte', 'ok 1')
                     return (f's:bip340_verify {hx(digest)} {pk} {hx(sig[:64])}', 'ok 1')
-                yield Case(f'tr_sign {hx(priv.to_bytes())} {hx(pub.to_bytes())} {TT.scripts_line(s)} {hx(digest)} {ht} {tweak}', 'ms',
+                # a sample also through the generated (translated, interpreted) _sign_taproot_input / calculate_tweak / merkle root
+                gk = 'g' if rng.random() < (0.12 if not ctx.thorough else 0.02) else ''
+                yield Case(f'tr_sign {hx(priv.to_bytes())} {hx(pub.to_bytes())} {TT.scripts_line(s)} {hx(digest)} {ht} {tweak}', gk + 'ms',
                            nontrivial=nt, tag='sign', spec=spec)
+                if gk:
+                    yield Case(f'tr_tweak {hx(pub.to_bytes())} {TT.scripts_line(s)}', 'g', nontrivial=True, tag='tweak-int')
     # all seven hash types on both paths, with one key
     priv = pool[True][0]; pub = priv.get_public_key()
     for ht in TYPES:
@@ -145,6 +149,12 @@ KEYS = {}
 
 
 def impl(op, a, ctx):
+    if op == 'tr_tweak':
+        from bitcoinutils.keys import PublicKey
+        from bitcoinutils.utils import calculate_tweak
+        F = Fields(a)
+        pub = PublicKey('04' + F.bytes().hex()); s = TT.parse_scripts(F); F.done()
+        return f'ok {calculate_tweak(pub, TT.scripts_py(s))}'
     if op in ('full_pubkey', 'negate', 'tweak_pub', 'tweak_priv'):
         from bitcoinutils import utils as U, schnorr as S
         F = Fields(a)
